@@ -1,12 +1,16 @@
 (* C06 — clock normalisation of the hourly model (opendsm/eemeter/models/hourly/model.py).
 
    Executable definitions only.  A reporting frame is a list of local calendar days, a day is the list of
-   its rows in chronological order, and a row carries its UTC instant, its local clock hour and whether the
-   `observed` cell is non-null.  UTC offsets are data: the harness reads them from the tz database and hands
-   the model the local hour of every row; nothing here knows what a time zone is.  The model only sees days
-   with 23, 24, 25 (or any other number of) rows.
+   its rows in chronological order, and a row carries its UTC instant (minutes), its local clock hour and
+   whether the `observed` cell is non-null.  UTC offsets are data: the harness reads them from the tz database
+   (zoneinfo, independently of pandas) and hands the model the local hour of every row; nothing here knows what
+   a time zone is.  The model only sees days with 23, 24, 25 (or any other number of) rows, and, per day, whether
+   the label lookup `df.loc["YYYY-MM-DD"]` can be resolved (`d_loc`): pandas has to localise the wall-clock
+   readings 00:00:00 and 23:59:59.999999999 of the date, which raises KeyError when the first one does not exist
+   or is ambiguous, and ValueError when the second one is (zones whose clock changes at local midnight).
 
    Mirrored literally:
+     _get_contiguous_datetime data.py:200-221     contiguous_index
      _get_dst_indices        model.py:1409-1442   get_dst_indices
      correct_dst (closure)   model.py:980-996     correct_dst   (one feature column at a time, see below)
      np.array(agg_x)/reshape model.py:1002-1006   feature_matrix (ragged -> ValueError)
@@ -21,17 +25,19 @@ From Coq Require Import ZArith List Bool Arith Lia.
 Import ListNotations.
 
 Record hour_stamp := { hs_utc : Z; hs_hour : nat; hs_obs : bool }.
-Definition day := list hour_stamp.
 
 (* exception classes of the mirrored code *)
 Inductive err :=
-| EValue      (* ValueError("too many missing hours") *)
+| EValue      (* ValueError("too many missing hours"); ValueError from tz localisation of the end of a date *)
+| EKey        (* KeyError: df.loc["YYYY-MM-DD"] when local midnight of the date does not exist / is ambiguous *)
 | EIndex      (* IndexError: list / array index out of range *)
 | EUnbound    (* UnboundLocalError: `hour` read before assignment in the 25-hour loop *)
 | ERagged     (* ValueError: np.array on day lists of unequal length *)
 | EShape      (* ValueError: feature matrix with a width other than 24 slots per day (sklearn predict) *)
 | ELength     (* ValueError: df["predicted"] = y with len(y) <> len(df) *)
 | EDupIndex.  (* ValueError: cannot reindex on an axis with duplicate labels *)
+
+Record day := { d_rows : list hour_stamp; d_loc : option err }.   (* d_loc = Some e: df.loc[date label] raises e *)
 
 Inductive res (A : Type) : Type := Ok (a : A) | Err (e : err).
 Arguments Ok {A} a.
@@ -40,15 +46,23 @@ Arguments Err {A} e.
 Definition bind {A B} (r : res A) (f : A -> res B) : res B :=
   match r with Ok a => f a | Err e => Err e end.
 
+(* ------------------------------------------------------------------ _get_contiguous_datetime (data.py:200-221)
+   pd.date_range(start = first stamp at local 00:00, end = last stamp at local 23:00, freq = "h"): one stamp every
+   60 minutes of real time from s up to (and including, when it is on the grid) e; the frame is re-indexed onto it.
+   s and e are data (local wall-clock readings resolved through the tz database). *)
+Definition contiguous_index (s e : Z) : list Z :=
+  if (e <? s)%Z then [] else map (fun k => (s + 60 * Z.of_nat k)%Z) (seq 0 (S (Z.to_nat ((e - s) / 60)))).
+
 (* ------------------------------------------------------------------ _get_dst_indices *)
 
 (* counts = df.groupby(df.index.date).count(); counts["observed"] : non-null `observed` cells of the date *)
-Definition count_obs (d : day) : nat := length (filter hs_obs d).
-Definition hours (d : day) : list nat := map hs_hour d.
+Definition count_obs (d : day) : nat := length (filter hs_obs (d_rows d)).
+Definition hours (d : day) : list nat := map hs_hour (d_rows d).
 
 (* set(range(24)) - set(month.index.hour) *)
-Definition missing_hours (d : day) : list nat :=
-  filter (fun h => negb (existsb (Nat.eqb h) (hours d))) (seq 0 24).
+Definition missing_of (hs : list nat) : list nat :=
+  filter (fun h => negb (existsb (Nat.eqb h) hs)) (seq 0 24).
+Definition missing_hours (d : day) : list nat := missing_of (hours d).
 
 (* for i in month.index: if i.hour in seen: hour = i.hour; break; seen.add(i.hour) *)
 Fixpoint first_repeat (seen : list nat) (hs : list nat) : option nat :=
@@ -66,9 +80,13 @@ Fixpoint interp_loop (i : nat) (days : list day) (last : option nat)
   | [] => Ok ([], last)
   | d :: rest =>
       if count_obs d =? 23 then
-        match missing_hours d with
-        | [h] => bind (interp_loop (S i) rest (Some h)) (fun '(l, last') => Ok ((i, h) :: l, last'))
-        | _ => Err EValue
+        match d_loc d with
+        | Some e => Err e                               (* month = df.loc[idx.isoformat()] *)
+        | None =>
+            match missing_hours d with
+            | [h] => bind (interp_loop (S i) rest (Some h)) (fun '(l, last') => Ok ((i, h) :: l, last'))
+            | _ => Err EValue
+            end
         end
       else interp_loop (S i) rest last
   end.
@@ -78,10 +96,14 @@ Fixpoint mean_loop (i : nat) (days : list day) (last : option nat) : res (list (
   | [] => Ok []
   | d :: rest =>
       if count_obs d =? 25 then
-        let last' := match first_repeat [] (hours d) with Some h => Some h | None => last end in
-        match last' with
-        | None => Err EUnbound
-        | Some h => bind (mean_loop (S i) rest last') (fun l => Ok ((i, h) :: l))
+        match d_loc d with
+        | Some e => Err e
+        | None =>
+            let last' := match first_repeat [] (hours d) with Some h => Some h | None => last end in
+            match last' with
+            | None => Err EUnbound
+            | Some h => bind (mean_loop (S i) rest last') (fun l => Ok ((i, h) :: l))
+            end
         end
       else mean_loop (S i) rest last
   end.
@@ -249,7 +271,8 @@ Section Values.
   Variable feat : hour_stamp -> V.               (* the (normalised) feature value of a row *)
   Variable regress : list (list V) -> list V.    (* self._model.predict + inverse scaling + flatten: not modelled *)
 
-  Definition index_of (days : list day) : list Z := map hs_utc (concat days).
+  Definition rows_of (days : list day) : list hour_stamp := concat (map d_rows days).
+  Definition index_of (days : list day) : list Z := map hs_utc (rows_of days).
 
   Fixpoint has_dup (l : list Z) : bool :=
     match l with
@@ -269,7 +292,7 @@ Section Values.
 
   Definition hourly_predict (days : list day) : res (list (Z * option V)) :=
     bind (get_dst_indices days) (fun idx =>
-    bind (feature_matrix (map (map feat) days) idx) (fun agg =>
+    bind (feature_matrix (map (fun d => map feat (d_rows d)) days) idx) (fun agg =>
     if negb (all24 agg) then Err EShape else
     bind (transform_dst (regress agg) idx) (fun y =>
     let index := index_of days in
@@ -277,3 +300,88 @@ Section Values.
     else reindex (combine index y) index))).
 
 End Values.
+
+(* ------------------------------------------------------------------ specification side: clock patterns
+   A reporting frame as the theorems see it: every local day is a regular day (24 clock hours), a short day (the
+   clock skips hour h: 23 rows) or a long day (hour h occurs twice in a row: 25 rows), for ANY h in 0..23 — the
+   theorems quantify over all such patterns rather than over time zones. *)
+Inductive daykind := Reg | Short (h : nat) | Long (h : nat).
+
+Definition clock_hours (k : daykind) : list nat :=
+  match k with
+  | Reg => seq 0 24
+  | Short h => seq 0 h ++ seq (S h) (23 - h)
+  | Long h => seq 0 (S h) ++ seq h (24 - h)
+  end.
+
+Definition kind_ok (k : daykind) : bool :=
+  match k with Reg => true | Short h => h <? 24 | Long h => h <? 24 end.
+
+(* the indices _get_dst_indices is expected to return on such a frame, day numbering starting at i *)
+Fixpoint interp_of (i : nat) (pat : list daykind) : list (nat * nat) :=
+  match pat with
+  | [] => []
+  | Short h :: p => (i, h) :: interp_of (S i) p
+  | _ :: p => interp_of (S i) p
+  end.
+Fixpoint mean_of (i : nat) (pat : list daykind) : list (nat * nat) :=
+  match pat with
+  | [] => []
+  | Long h :: p => (i, h) :: mean_of (S i) p
+  | _ :: p => mean_of (S i) p
+  end.
+Definition indices_of (pat : list daykind) : dst_indices := (interp_of 0 pat, mean_of 0 pat).
+
+(* the operations of _transform_dst in calendar order *)
+Fixpoint ops_of (i : nat) (pat : list daykind) : list op :=
+  match pat with
+  | [] => []
+  | Reg :: p => ops_of (S i) p
+  | Short h :: p => (REMOVE, i * 24 + h) :: ops_of (S i) p
+  | Long h :: p => (INTERPOLATE, i * 24 + h + 1) :: ops_of (S i) p
+  end.
+
+(* guards of the theorems (each excluded region is a `_refuted` witness in Properties/C06.v):
+   - a short day that skips hour 23: correct_dst reads feature[23] of a 23-element list
+   - a long day that repeats hour 23 as the LAST day: _transform_dst reads prediction[24*n]
+   - a long day repeating hour 23 directly followed by a short day skipping hour 0: REMOVE and INTERPOLATE fall on
+     the same index and the fence-post slicing differs from the insert/delete loop *)
+Fixpoint pattern_ok (pat : list daykind) : bool :=
+  match pat with
+  | [] => true
+  | Short h :: p => (h <? 23) && pattern_ok p
+  | Long h :: p =>
+      (h <? 24) && pattern_ok p &&
+      (if h =? 23 then match p with [] => false | Short 0 :: _ => false | _ => true end else true)
+  | Reg :: p => pattern_ok p
+  end.
+
+Definition total_rows (pat : list daykind) : nat := length (concat (map clock_hours pat)).
+
+Section BySpec.
+  Context {V : Type}.
+  Variable mean2 : V -> V -> V.
+
+  (* what _transform_dst has to deliver, day by day, from 24 slots per day:
+     regular day: its 24 slots; short day: the synthesised slot h removed; long day: slot h (the merged hour) is the
+     first occurrence of hour h, the second occurrence receives the mean of slot h and the following slot *)
+  Fixpoint by_day (pat : list daykind) (pred : list V) : option (list V) :=
+    match pat with
+    | [] => Some []
+    | k :: p =>
+        let s := firstn 24 pred in
+        match by_day p (skipn 24 pred) with
+        | None => None
+        | Some out =>
+            match k with
+            | Reg => Some (s ++ out)
+            | Short h => Some (delete_at h s ++ out)
+            | Long h =>
+                match nth_error pred h, nth_error pred (S h) with
+                | Some a, Some b => Some (firstn (S h) s ++ mean2 a b :: skipn (S h) s ++ out)
+                | _, _ => None
+                end
+            end
+        end
+    end.
+End BySpec.
